@@ -157,6 +157,18 @@ class Gen:
         the same struct name with another attribute list (types are compared structurally, not by
         name); values of such a type can only come from an extension leaf."""
         r = self.rng
+        if t[0] == "s":
+            # the difference hidden one level down: same name, same attributes, but one struct-typed
+            # attribute whose own definition differs (types are compared structurally all the way)
+            attrs = list(self.structs.get(t[1], []))
+            nested = [(i, a, at) for i, (a, at) in enumerate(attrs) if at[0] == "s"]
+            if nested and r.random() < 0.6:
+                i, a, at = r.choice(nested)
+                inner = list(self.structs.get(at[1], []))
+                inner_alt = inner[:-1] if inner and r.random() < 0.5 else inner + [("zz", P("u8"))]
+                attrs2 = list(attrs)
+                attrs2[i] = (a, ("u", at[1], inner_alt))
+                return ("u", t[1], attrs2)
         if r.random() < 0.7:
             return self.other_prim(t)
         if t[0] == "p":
@@ -1122,6 +1134,75 @@ def gen_name_triples():
                 body, params = [let(c)], [[g.ident(a), i32], [g.ident(b), i32]]
             f = ["fn", g.ident("f"), ["params"] + params, i32, ["body"] + body + [["ret", lit()]]]
             out.append((["program", f], {"stream": "names", "exhaustive": True}))
+    return out
+
+
+# ---------------------------------------------------------------------------------------- type equality
+def gen_typeeq():
+    """Every place where two types are compared (let annotation, assignment, call argument, return,
+    nested return, operands of an operation, sides of a comparison) against a list of type pairs
+    that differ at the top, one level down, two levels down, or not at all: types are compared
+    structurally all the way (names, attribute names, order, count, attribute types, array sizes).
+    Values of the 'actual' type come from extension leaves (which may return any type)."""
+    P_ = lambda x: ("p", x)
+    U = lambda n, attrs: ("u", n, attrs)
+    I1, I2, I3 = U("In", [("a", P_("i32"))]), U("In", [("a", P_("bool"))]), U("In", [("a", P_("i32")), ("zz", P_("u8"))])
+    O1, O2, O3 = U("Out", [("inner", I1)]), U("Out", [("inner", I2)]), U("Out", [("inner", I3)])
+    Q1, Q2 = U("Q", [("o", O1), ("k", P_("u8"))]), U("Q", [("o", O2), ("k", P_("u8"))])
+    S1 = U("S", [("a", P_("i32")), ("b", P_("bool"))])
+    pairs = [
+        (P_("i32"), P_("bool")), (P_("i32"), U("i32", [])), (P_("i32"), P_("i32")),
+        (S1, U("S", [("a", P_("i32"))])), (S1, U("S", [("b", P_("bool")), ("a", P_("i32"))])),
+        (S1, U("S", [("a", P_("bool")), ("b", P_("bool"))])), (S1, U("T", [("a", P_("i32")), ("b", P_("bool"))])), (S1, S1),
+        (O1, O2), (O1, O3), (O1, O1), (Q1, Q2), (Q1, Q1),
+        (("a", P_("i32"), 2), ("a", P_("bool"), 2)), (("a", P_("i32"), 2), ("a", P_("i32"), 3)),
+        (("a", I1, 2), ("a", I2, 2)), (("a", I1, 2), ("a", I1, 2)),
+    ]
+    out = []
+    for k, (E, A) in enumerate(pairs):
+        for site in ("let", "bind", "arg", "ret", "nret", "op", "cmp"):
+            g = Gen(0)
+            decls = []
+            seen = set()
+
+            def declare(t):
+                # every struct mentioned by the EXPECTED type is declared with that definition
+                if t[0] == "u":
+                    for _, at in t[2]:
+                        declare(at)
+                    if t[1] not in seen:
+                        seen.add(t[1])
+                        decls.append(["struct", g.ident(t[1])] + [["attr", g.ident(a), g.ty(at)] for a, at in t[2]])
+                elif t[0] == "a":
+                    declare(t[1])
+            declare(E)
+            i32 = ["prim", "i32"]
+            ext = lambda t, tag: ["expr", ["ext", g.ty(t), tag]]
+            one = ["ret", ["expr", ["prim", ["pv", "i32", 1]]]]
+            fns = []
+            if site == "let":
+                body = [["let", g.ident("x"), 0, ["ty", g.ty(E)], ext(A, 1)], one]
+                fns.append(["fn", g.ident("f"), ["params"], i32, ["body"] + body])
+            elif site == "bind":
+                body = [["let", g.ident("y"), 1, ["noty"], ext(E, 1)], ["bind", g.ident("y"), ext(A, 2)], one]
+                fns.append(["fn", g.ident("f"), ["params"], i32, ["body"] + body])
+            elif site == "arg":
+                fns.append(["fn", g.ident("g"), ["params", [g.ident("a"), g.ty(E)]], i32, ["body", one]])
+                fns.append(["fn", g.ident("f"), ["params"], i32, ["body", ["call", g.ident("g"), ext(A, 1)], one]])
+            elif site == "ret":
+                fns.append(["fn", g.ident("f"), ["params"], g.ty(E), ["body", ["ret", ext(A, 1)]]])
+            elif site == "nret":
+                cond = ["single", ["expr", ["prim", ["pv", "bool", 1]]]]
+                nested = ["if", ["ifs", cond, ["ifbody", ["ret", ext(A, 1)]], ["noelse"], ["noelif"]]]
+                fns.append(["fn", g.ident("f"), ["params"], g.ty(E), ["body", nested, ["ret", ext(E, 2)]]])
+            elif site == "op":
+                e = ["expr", ["ext", g.ty(E), 1], ["Plus", ["ext", g.ty(A), 2]]]
+                fns.append(["fn", g.ident("f"), ["params"], i32, ["body", ["let", g.ident("z"), 0, ["noty"], e], one]])
+            else:
+                cond = ["logic", ["lc", ext(E, 1), "Eq", ext(A, 2)]]
+                fns.append(["fn", g.ident("f"), ["params"], i32,
+                            ["body", ["if", ["ifs", cond, ["ifbody"], ["noelse"], ["noelif"]]], one]])
+            out.append((["program"] + decls + fns, {"stream": "typeeq", "pair": k, "site": site}))
     return out
 
 
